@@ -1,0 +1,12 @@
+//go:build !verif
+
+package verifhook
+
+// Enabled reports whether the hooks are compiled in.
+const Enabled = false
+
+func IO(op IOOp, path string, n int64) {}
+
+func FS(op FSOp, a, b string) {}
+
+func Point(name string, key []byte) {}
